@@ -6,6 +6,7 @@
 package wire
 
 import (
+	"bytes"
 	"encoding/binary"
 	"encoding/json"
 	"errors"
@@ -129,10 +130,15 @@ type hsSub struct {
 
 // hsCase is one perturbation of the exchange.
 type hsCase struct {
-	Kind  string  // label only: intact, subst, subst2, trunc, skew, skew1, magicswap
+	Kind  string  // label only: intact, subst, subst2, trunc, skew, skew1, magicswap, model
 	Subs  []hsSub `json:",omitempty"`
 	CutSC int     // -1 = none
 	CutCS int
+	// Model, when "server" or "client", replaces that end by a byte-exact model of a
+	// peer that genuinely runs version Peer (the real code's version is a compile-time
+	// constant, so a differently-versioned real peer cannot exist in-process).
+	Model string     `json:",omitempty"`
+	Peer  *[3]uint32 `json:",omitempty"`
 }
 
 type hsResult struct {
@@ -180,8 +186,10 @@ func runHandshake(c hsCase) hsResult {
 	wg.Add(2)
 	go func() {
 		defer wg.Done()
-		err := agent.ClientHandshake(client)
-		if err == nil {
+		var err error
+		if c.Model == "client" {
+			err = modelClient(client, *c.Peer)
+		} else if err = agent.ClientHandshake(client); err == nil {
 			err = mutagen.ClientVersionHandshake(client)
 		}
 		if err != nil {
@@ -192,8 +200,10 @@ func runHandshake(c hsCase) hsResult {
 	}()
 	go func() {
 		defer wg.Done()
-		err := agent.ServerHandshake(server)
-		if err == nil {
+		var err error
+		if c.Model == "server" {
+			err = modelServer(server, *c.Peer)
+		} else if err = agent.ServerHandshake(server); err == nil {
 			err = mutagen.ServerVersionHandshake(server)
 		}
 		if err != nil {
@@ -209,12 +219,114 @@ func runHandshake(c hsCase) hsResult {
 	return res
 }
 
+// The wire protocol as documented (pkg/agent/handshake.go, pkg/mutagen/version.go):
+// 3-byte magic numbers and a 12-byte big-endian (major, minor, patch) triple.
+var (
+	docServerMagic = []byte{0x05, 0x27, 0x87}
+	docClientMagic = []byte{0x87, 0x27, 0x05}
+)
+
+func encodeVersion(v [3]uint32) []byte {
+	b := make([]byte, 12)
+	for i := 0; i < 3; i++ {
+		binary.BigEndian.PutUint32(b[4*i:], v[i])
+	}
+	return b
+}
+
+var errModelReject = errors.New("model peer: mismatch")
+
+// modelServer / modelClient speak the documented protocol for a build of version v:
+// same message order as the real code, reject on any mismatch.
+func modelServer(c *hsConn, v [3]uint32) error {
+	if _, err := c.Write(docServerMagic); err != nil {
+		return err
+	}
+	var m [3]byte
+	if _, err := io.ReadFull(c, m[:]); err != nil {
+		return err
+	} else if string(m[:]) != string(docClientMagic) {
+		return errModelReject
+	}
+	if _, err := c.Write(encodeVersion(v)); err != nil {
+		return err
+	}
+	var pv [12]byte
+	if _, err := io.ReadFull(c, pv[:]); err != nil {
+		return err
+	} else if string(pv[:]) != string(encodeVersion(v)) {
+		return errModelReject
+	}
+	return nil
+}
+
+func modelClient(c *hsConn, v [3]uint32) error {
+	var m [3]byte
+	if _, err := io.ReadFull(c, m[:]); err != nil {
+		return err
+	} else if string(m[:]) != string(docServerMagic) {
+		return errModelReject
+	}
+	if _, err := c.Write(docClientMagic); err != nil {
+		return err
+	}
+	var pv [12]byte
+	if _, err := io.ReadFull(c, pv[:]); err != nil {
+		return err
+	}
+	if _, err := c.Write(encodeVersion(v)); err != nil {
+		return err
+	}
+	if string(pv[:]) != string(encodeVersion(v)) {
+		return errModelReject
+	}
+	return nil
+}
+
 const hsDirLen = 15 // 3 magic bytes + 12 version bytes in each direction
 
 // judgeHandshake is the C34 oracle. intactSC/intactCS are the bytes of the
 // unperturbed exchange (used only to decide whether a substitution really
 // changes a byte).
 func judgeHandshake(c hsCase, r hsResult, intactSC, intactCS []byte) (what string, effective bool) {
+	// "both sides send the expected magic numbers and ... versions": whatever a real side
+	// transmits is its own magic number and its own version, never something derived from
+	// what it received (it may only stop early).
+	if c.Model != "server" && !bytes.HasPrefix(intactSC, r.SentSC) {
+		return fmt.Sprintf("server transmitted % x, its own handshake bytes are % x", r.SentSC, intactSC), true
+	}
+	if c.Model != "client" && !bytes.HasPrefix(intactCS, r.SentCS) {
+		return fmt.Sprintf("client transmitted % x, its own handshake bytes are % x", r.SentCS, intactCS), true
+	}
+	if c.Model != "" {
+		local := [3]uint32{mutagen.VersionMajor, mutagen.VersionMinor, mutagen.VersionPatch}
+		own := append(append([]byte{}, docClientMagic...), encodeVersion(local)...)
+		sent := r.SentCS
+		if c.Model == "client" {
+			own = append(append([]byte{}, docServerMagic...), encodeVersion(local)...)
+			sent = r.SentSC
+		}
+		cAcc, sAcc := r.ClientErr == nil, r.ServerErr == nil
+		if *c.Peer == local {
+			// Control: a model peer of the same version is accepted and accepts.
+			if !cAcc || !sAcc || !bytes.Equal(sent, own) {
+				return fmt.Sprintf("same-version model peer: client=%v server=%v, real side sent % x", r.ClientErr, r.ServerErr, sent), false
+			}
+			return "", false
+		}
+		// (a) the real side transmits exactly its own magic number and version encoding.
+		if !bytes.Equal(sent, own) {
+			return fmt.Sprintf("real %s side transmitted % x, expected its own % x", map[string]string{"server": "client", "client": "server"}[c.Model], sent, own), true
+		}
+		// (b) "Any mismatch ... makes both sides fail rather than proceed."
+		if cAcc || sAcc {
+			return fmt.Sprintf("peers of different versions (%v vs %v) but client=%v server=%v", *c.Peer, local, r.ClientErr, r.ServerErr), true
+		}
+		if errors.Is(r.ClientErr, errStall) || errors.Is(r.ServerErr, errStall) {
+			return "a side blocked instead of failing against a differently-versioned peer", true
+		}
+		return "", true
+	}
 	pertSC, pertCS := c.CutSC >= 0 && c.CutSC < hsDirLen, c.CutCS >= 0 && c.CutCS < hsDirLen
 	magic := (c.CutSC >= 0 && c.CutSC < 3) || (c.CutCS >= 0 && c.CutCS < 3)
 	for _, s := range c.Subs {
@@ -424,6 +536,13 @@ func TestC34(t *testing.T) {
 		cases = append(cases, hsCase{Kind: "skew1", Subs: versionSubs("sc", local, s), CutSC: -1, CutCS: -1})
 		cases = append(cases, hsCase{Kind: "skew1", Subs: versionSubs("cs", local, s), CutSC: -1, CutCS: -1})
 	}
+	// (3b) the two ends genuinely run different versions: the real client against a
+	// model server of every perturbed version, the real server against a model client.
+	for _, s := range append([][3]uint32{local}, skews...) {
+		s := s
+		cases = append(cases, hsCase{Kind: "model", CutSC: -1, CutCS: -1, Model: "server", Peer: &s})
+		cases = append(cases, hsCase{Kind: "model", CutSC: -1, CutCS: -1, Model: "client", Peer: &s})
+	}
 	// (4) role confusion: a direction carries the other role's magic number.
 	swap := func(d string, to []byte) []hsSub {
 		var out []hsSub
@@ -490,10 +609,11 @@ func TestC34(t *testing.T) {
 	r.Rule("real agent.ClientHandshake+mutagen.ClientVersionHandshake against real agent.ServerHandshake+mutagen.ServerVersionHandshake over in-memory pipes with a middlebox: " +
 		"the intact exchange; every single-byte substitution (255 values) at each of the 30 bytes; every pair of per-direction truncation points (0..15 x 0..15); " +
 		"every single-field version perturbation (32 bit flips, +1, -1, 0, 0xFFFFFFFF, byte-reversed, for major/minor/patch) and every field permutation, mapped consistently in both directions and in each direction alone; " +
-		"swapped magic numbers; every pair of the 30 byte positions with " + vals + ". non-trivial = at least one delivered byte differs from the intact exchange or a direction is cut short; distinct by the perturbation")
+		"each real side against a byte-exact model peer of every such perturbed version (and of the same version as control), asserting the bytes the real side transmits; swapped magic numbers; every pair of the 30 byte positions with " + vals + ". non-trivial = at least one delivered byte differs from the intact exchange or a direction is cut short; distinct by the perturbation")
 	r.Assume("a side whose handshake fails closes its stream (agent.connect calls stream.Close; the agent process exits), which the peer observes as EOF",
 		"truncation is modelled as end-of-stream (EOF) after k bytes of a direction, not as a silent stall",
-		"both binaries are the same build: different peer versions are produced by the middlebox rewriting the 12 version bytes",
+		"the version is a compile-time constant, so both real ends are the same build: a differently-versioned peer is (i) the middlebox rewriting the 12 version bytes and (ii) a harness model peer speaking the documented protocol (magic 05 27 87 / 87 27 05, 12-byte big-endian triple, server sends first) with the other version",
+		"a real side's transmitted bytes must be a prefix of what it transmits in the intact exchange (its own magic number and version)",
 		"a sender cannot notice corruption of the last message it sent (the version message): the oracle demands failure of the receiver, never-both-accept, and failure of both sides only for magic-number perturbations")
 
 	for _, c := range cases {
